@@ -472,3 +472,10 @@ package podgroup_info
 //@   modifies fields(pgi), pgi.PodSets["default"].minAvailable, family(pgi.RootSubGroupSet.parent), family(pgi.RootSubGroupSet.groups), family(pgi.RootSubGroupSet.podSets)
 //@   ensures pgi.PodGroup == pg && pgi.Queue == pg.Spec.Queue && pgi.Name == pg.Name && pgi.Namespace == pg.Namespace
 //@ end
+
+// ---- added by helper "solver" (stable families, ENGINE_NEWS batch 7) ---------------------------------
+// The pod-set skeleton of a job is fixed after the snapshot: needed so that setsOK(job) survives the
+// `modifies *` statement operations of the solver layer (JobSolver.Solve: "jobSolved ==> IsGangSatisfied").
+//@ stable PodGroupInfo.PodSets
+//@ stable PodGroupInfo.UID
+//@ stable maptype map[string]*subgroup_info.PodSet
